@@ -33,9 +33,12 @@ def run(ctx, report):
     report.section("conversion chains", chain_fold.run, ctx, report, {
         "chain": ("R-CHAIN", "1"), "second": ("R-CHAIN", "2"), "sami": ("R-CHAIN", "1")})
     report.section("DFXP round trip", dfxp_reader_fold.run, ctx, report, {"roundtrip": ("R-ROUNDTRIP", "1")})
+    from . import sami_reader_fold
+    report.section("SAMI round trip", sami_reader_fold.run, ctx, report, {"roundtrip": ("R-ROUNDTRIP", "1")})
     report.not_decided += ["equality of cues and text after chains longer than two formats and beyond the folded caption sets",
-                           "chains that read SAMI (its reader drives a second parser outside the evaluator)",
-                           "SAMI ends of last cues; whitespace normalisation by the parsers"]
+                           "behaviour of the real lxml / cssutils / BeautifulSoup on input outside the modelled subset "
+                           "(sa/core/samimodels.py, sa/core/soupmodel.py)",
+                           "whitespace normalisation by the parsers"]
 
 
 def _relabel(report, start, clause):
